@@ -26,6 +26,9 @@ def t_generic(chk, ix):
     rules_generic.check_late_binding(chk, ix)
     rules_generic.check_finally_jumps(chk, ix)
     rules_generic.check_shared_class_state(chk, ix, ("behave",), floor=100)
+    # excluding an element (name / file:LINE selection, a hook) must not blow up on an element without children: false red
+    from .. import rules_status
+    rules_status.check_mark_skipped_postcondition(chk, ix)
     # a cleanup that is silently not registered cannot fail the run
     from .. import rules_context
     rules_context.check_add_cleanup(chk, ix)
